@@ -63,6 +63,10 @@ def path_for(rng, truth_rows, depth, want_ele=True, row=None):
     if qual and rng.random() < 0.6:
         p += '[%s]' % qual
         shape += '[q]'
+    elif not qual and len(row) > 8 and rng.random() < 0.15:
+        # a bracketed value on a segment the map's matching rule has no qualifier for: its own first element, or a foreign one
+        p += '[%s]' % (row[8] if row[8] and rng.random() < 0.5 else 'ZZ9')
+        shape += '[v]'
     if want_ele:
         e = rng.randint(1, max(1, min(row[5], 9)))
         p += '%02d' % e
@@ -108,8 +112,10 @@ def generate(rng, tier, run, seed=0):
                     qv = s.get(qe, qc)
                     qual = qv if qv in codes and qv and qv.isalnum() and qv.upper() == qv else None
                 comps = {str(i + 1): len(c.children) for i, c in enumerate(s.node.children) if c.kind == 'composite'}
+                first = s.vals[0] if s.vals else ''
+                first = first[0] if isinstance(first, list) and first else first
                 inst_rows[key].append([s.node.path(), [list(y) for y in s.inst], s.node.id, s.node.uid, qual, len(s.node.children), comps,
-                                       len(s.vals)])
+                                       len(s.vals), first if isinstance(first, str) and first.isalnum() and first.upper() == first else None])
                 break
     pick = None
     for n, (key, depth) in enumerate(order):
@@ -134,7 +140,7 @@ def generate(rng, tier, run, seed=0):
         if op in ('get_value', 'set_value', 'exists', 'count', 'select', 'first', 'delete_node', 'first_handle'):
             r = rng.random()
             if r < 0.7 and h == 0:
-                p, shape = path_for(rng, rows, depth, want_ele=op in ('get_value', 'set_value'))
+                p, shape = path_for(rng, rows, depth, want_ele=op in ('get_value', 'set_value') or (op == 'delete_node' and rng.random() < 0.2))
                 if op in ('exists', 'count', 'select', 'first', 'delete_node', 'first_handle') and rng.random() < 0.4:
                     # address a loop instead of a segment
                     row = rng.choice(rows)
@@ -216,6 +222,10 @@ def generate(rng, tier, run, seed=0):
             o['uid'] = node.uid
             if wrapped:
                 o['wrapped'] = True
+            if op == 'add_segment' and rng.random() < 0.3:
+                o['as_object'] = True
+            if op == 'add_loop' and rng.random() < 0.15:
+                o['bogus'] = True
             if op == 'delete_segment' and rng.random() < 0.7 and h == 0:
                 # prefer a segment that is really there: a direct child of the root instance
                 direct = [r_ for r_ in rows if len(r_[1]) == depth + 1]
@@ -378,6 +388,8 @@ def _execute(case):
                 mres = None
                 mbad = False
                 try:
+                    if op == 'delete_node' and M.parse_path(p)[4] is not None:
+                        raise M.BadPath(p)          # an element is not a node: nothing may be deleted
                     if op in ('get_value', 'set_value'):
                         ms, ele, sub = M.first_segment(m, p)
                         allm = [x for x in M.select(m, p.split('[')[0] if False else p) if x.kind == 'seg'] if ms is not None or True else []
@@ -440,7 +452,8 @@ def _execute(case):
                             out.violate('api', 'set-value-refused|%s' % shape, '%s raised %s although the segment exists' % (tag, rexc))
                             break
                         M.set_value(ms, ele, sub, o['val'])
-                        overwrote_qual = '[' in p and ms.qual is not None and ms.qual[0] == ele and (ms.qual[1] or 1) == (sub or 1)
+                        overwrote_qual = '[' in p and ((ms.qual is not None and ms.qual[0] == ele and (ms.qual[1] or 1) == (sub or 1)) or
+                                                       (ms.qual is None and ele == 1 and (sub or 1) == 1))
                         back = o['val'] if overwrote_qual else r.get_value(p)
                         if back != o['val']:
                             out.violate('api', 'set-then-get|%s' % shape, '%s then get_value -> %r' % (tag, back))
@@ -509,8 +522,21 @@ def _execute(case):
                 model.append(M.deep_copy(m))
             elif op in ('add_segment', 'add_loop'):
                 seg = o['seg']
+                if o.get('bogus'):
+                    # a segment that opens no child loop of this node: refused with the path error, nothing added
+                    try:
+                        r.add_loop('ZQ9*1~')
+                        out.violate('api', 'add-loop-bogus-accepted', '%s: add_loop of a segment unknown to the map was accepted' % tag)
+                        break
+                    except X12PathError:
+                        pass
                 try:
-                    if op == 'add_segment':
+                    if op == 'add_segment' and o.get('as_object'):
+                        # the caller hands over a Segment object and goes on using it: the tree must hold its own copy
+                        so = pyx12.segment.Segment(seg + '~', '~', '*', ':')
+                        r.add_segment(so)
+                        so.set('01', 'ALIAS')
+                    elif op == 'add_segment':
                         r.add_segment(seg + '~')
                     else:
                         r.add_loop(seg + '~')
